@@ -206,7 +206,8 @@ func applyTreeOp(res *vkit.Result, t *btree.BTree, m *Model, st *shapeTracker, o
 		if had {
 			res.Class("put-replaces")
 		}
-		return true, itemResult(res, sitePrefix+"ReplaceOrInsert/ret", ctx, fmt.Sprintf("ReplaceOrInsert(%d#%d)", op.A, ver), got, old, had)
+		return true, itemResult(res, sitePrefix+"ReplaceOrInsert/ret", ctx, fmt.Sprintf("ReplaceOrInsert(%d#%d)", op.A, ver), got, old, had) &&
+			lookupAfter(res, t, m, op.A, sitePrefix+"ReplaceOrInsert/get-after", ctx)
 	case "del", "delmin", "delmax":
 		var got btree.Item
 		var old Item
@@ -251,7 +252,18 @@ func applyTreeOp(res *vkit.Result, t *btree.BTree, m *Model, st *shapeTracker, o
 			res.Class("delete-min-max-on-empty")
 		}
 		name := map[string]string{"del": "Delete", "delmin": "DeleteMin", "delmax": "DeleteMax"}[op.Kind]
-		return true, itemResult(res, sitePrefix+name+"/ret", ctx, call, got, old, had)
+		if !itemResult(res, sitePrefix+name+"/ret", ctx, call, got, old, had) {
+			return true, false
+		}
+		// the key that was asked for, or the key the sorted set lost: it must be gone for Get and Has as well
+		gone := op.A
+		if op.Kind != "del" {
+			if !had {
+				return true, true
+			}
+			gone = old.K
+		}
+		return true, lookupAfter(res, t, m, gone, sitePrefix+name+"/get-after", ctx)
 	case "clear":
 		t.Clear(op.B != 0)
 		m.Clear()
@@ -269,6 +281,20 @@ func applyTreeOp(res *vkit.Result, t *btree.BTree, m *Model, st *shapeTracker, o
 		return false, true
 	}
 	return false, true
+}
+
+// lookupAfter asks Get and Has for the key a write has just stored or removed: both must answer from the tree as it
+// is now (the most recently stored item, or nothing), whatever was looked up before the write.
+func lookupAfter(res *vkit.Result, t *btree.BTree, m *Model, k int, site, ctx string) bool {
+	exp, had := m.Get(k)
+	if !itemResult(res, site, ctx, fmt.Sprintf("Get(%d) right after the write", k), t.Get(Item{K: k}), exp, had) {
+		return false
+	}
+	if got := t.Has(Item{K: k}); got != had {
+		res.Failf(site, "%s: Has(%d) right after the write = %v, the sorted set says %v", ctx, k, got, had)
+		return false
+	}
+	return true
 }
 
 func knownTreeOp(kind string) bool {
@@ -502,7 +528,7 @@ func treeOpName(kind string) string {
 
 var PartBTree = &vkit.Part[CaseB]{
 	Property: Property, Name: "btree",
-	Rule:  "rapid: btree.BTree of degree 2/3/4/7/32; growth prefix of 0..40/50/60/110/200 keys (ascending or descending run with gaps, or random; a quarter of the cases near the maximum) + 1-60 ops (thorough 200) drawn by folding the sorted-set model: ReplaceOrInsert, Delete (weight 1/4/10/20), DeleteMin, DeleteMax, Get, Has, Clear in one case of ten, and all ten Ascend*/Descend* entry points (a third of the scans on the two added ones, AscendGreater / DescendLess) with pivots in {present, absent inside, below min, above max, nil, random}, empty/inverted ranges, and an iterator that stops after 1,2,3,5,len/2+1 or len+1 items or never. After every op: return value, Len, Min, Max, full Ascend and Descend equal the model; VerifCheck after every write; the iterator must not be called again after returning false. Non-trivial: height >= 2 was reached and a delete merged nodes or stole from a sibling, or a scan pivot lay strictly inside the key range; distinct = distinct case JSON",
+	Rule:  "rapid: btree.BTree of degree 2/3/4/7/32; growth prefix of 0..40/50/60/110/200 keys (ascending or descending run with gaps, or random; a quarter of the cases near the maximum) + 1-60 ops (thorough 200) drawn by folding the sorted-set model: ReplaceOrInsert, Delete (weight 1/4/10/20), DeleteMin, DeleteMax, Get, Has, Clear in one case of ten, and all ten Ascend*/Descend* entry points (a third of the scans on the two added ones, AscendGreater / DescendLess) with pivots in {present, absent inside, below min, above max, nil, random}, empty/inverted ranges, and an iterator that stops after 1,2,3,5,len/2+1 or len+1 items or never. After every op: return value, Len, Min, Max, full Ascend and Descend equal the model; right after every write Get and Has of the key that was stored, deleted or handed out by DeleteMin/DeleteMax (also in the clone parts, which share applyTreeOp); VerifCheck after every write; the iterator must not be called again after returning false. Non-trivial: height >= 2 was reached and a delete merged nodes or stole from a sibling, or a scan pivot lay strictly inside the key range; distinct = distinct case JSON",
 	Quick: 8000, Thorough: 14000,
 	Gen: GenBTree, Exec: ExecBTree,
 }
